@@ -618,8 +618,13 @@ func run(c *core.Ctx) {
 	}
 	w.keep = c.S.PlanP(400)
 	w.zeroOK = c.S.PlanP(200)
-	if c.S.PlanP(600) {
+	switch k := c.S.Plan(10); {
+	case k < 5:
 		w.target = ccontainer.NewCContainer[*val](nil)
+		w.targetErr = ccontainer.NewCContainer[*error](nil)
+	case k < 6: // value container only
+		w.target = ccontainer.NewCContainer[*val](nil)
+	case k < 7: // error container only
 		w.targetErr = ccontainer.NewCContainer[*error](nil)
 	}
 	var ctx0 context.Context
@@ -628,7 +633,7 @@ func run(c *core.Ctx) {
 		w.ctxTag = 1
 	}
 	w.rc = refcount.NewRefCount(ctx0, w.keep, w.target, w.targetErr, w.resolver)
-	c.Descf("refcount: keepUnref=%v targets=%v initialCtx=%v", w.keep, w.target != nil, ctx0 != nil)
+	c.Descf("refcount: keepUnref=%v target=%v targetErr=%v initialCtx=%v", w.keep, w.target != nil, w.targetErr != nil, ctx0 != nil)
 	maxops := 3
 	if c.Thorough {
 		maxops = 5
